@@ -65,6 +65,12 @@ def oracle(ctx, obs):
             oracle_scale(ctx, o)
         elif k == "counts":
             oracle_counts(ctx, o)
+        elif k == "hom2":
+            oracle_hom2(ctx, o)
+        elif k == "hom2_panic":
+            ctx.violation("S5", f"two-source HOM panicked on setup {o.get('setup')}: {str(o.get('panic'))[:200]}", {"kind": "hom2_panic", "setup": o.get("setup")}, o)
+        elif k == "hist_skip":
+            ctx.count("skipped:history:" + o["setup"])
 
 
 def oracle_env(ctx, o):
@@ -212,6 +218,30 @@ def oracle_scale(ctx, o):
                       {"kind": "scaling", "setup": o["setup"], "fields": sorted({x.split(':')[0].split(' ')[0] for x in bad})}, rep)
 
 
+def oracle_hom2(ctx, o):
+    """two-source HOM with the sources scaled independently: visibilities and rates must not move"""
+    ctx.seen(("hom2", o["setup"], tuple(o["source1"]), tuple(o["source2"])))
+    ctx.count("hom2")
+    B, S = o["base"], o["scaled"]
+    f1, f2 = [fh(x) for x in o["source1"]], [fh(x) for x in o["source2"]]
+    rep = {"setup": o["setup"], "source1_power_deff_factors": f1, "source2_power_deff_factors": f2,
+           "call": "hom_two_source_visibilities(&a, &b, grid, grid, integrator) / hom_two_source_rate_series(&a.joint_spectrum(i), &b.joint_spectrum(i), grid, grid, Steps(-0.2 ps, 0.2 ps, 3)); "
+                   "b = a with 1.3 x pump bandwidth; then a.pump_average_power *= f1[0], a.deff *= f1[1], b likewise with f2",
+           "base": {k: [fh(x) for x in B[k]] for k in ("vis", "ss", "ii", "si", "dt")},
+           "scaled": {k: [fh(x) for x in S[k]] for k in ("vis", "ss", "ii", "si", "dt")}}
+    bad = []
+    for k in ("vis", "ss", "ii", "si"):
+        for i, (x, y) in enumerate(zip(B[k], S[k])):
+            x, y = fh(x), fh(y)
+            if not (finite(x) and finite(y)) or abs(x - y) > 1e-9 * max(1.0, abs(x)):
+                bad.append(f"{k}[{i}]: {x!r} -> {y!r}")
+    if [fh(x) for x in B["dt"]] != [fh(x) for x in S["dt"]]:
+        bad.append("time delays depend on power/deff")
+    if bad:
+        ctx.violation("S5", f"two-source HOM ({o['setup']}): scaling source 1 by (P x{f1[0]:g}, deff x{f1[1]:g}) and source 2 by (P x{f2[0]:g}, deff x{f2[1]:g}) "
+                            f"changes " + "; ".join(bad[:4]), {"kind": "hom2_scaling", "setup": o["setup"]}, rep)
+
+
 def oracle_counts(ctx, o):
     ctx.seen(("counts", o["setup"], o["res"]))
     corr, dw2 = Fraction(fh(o["corr"])), Fraction(fh(o["dws"])) * Fraction(fh(o["dwi"]))
@@ -240,7 +270,7 @@ def correspondence(ctx, obs, quick):
         seen_r, keep = set(), []
         for o in envs:
             if o["tag"] == "rand":
-                if (o["setup"], o["fwhm"]) in seen_r:
+                if "|" in o["setup"] or (o["setup"], o["fwhm"]) in seen_r:
                     continue
                 seen_r.add((o["setup"], o["fwhm"]))
             keep.append(o)
@@ -251,7 +281,7 @@ def correspondence(ctx, obs, quick):
             "case_env", ("env", o))
     sups = [o for o in obs if o["kind"] == "sup" and not o.get("panic") and o.get("jsa_raw") is not None]
     for i, o in enumerate(sups):
-        if "|thr" in o["tag"]:
+        if "|thr" in o["tag"] or o["tag"].startswith("hist"):
             continue
         raw_zero = is_zero(o["jsa_raw"]) and is_zero(o["jsi_singles_raw"])
         alpha, thr = fh(o.get("alpha")), fh(o["thr"])
@@ -338,13 +368,13 @@ def run(ctx):
             oracle(ctx, obs2)
             if any(v["found_input"] for v in ctx.violations):
                 break
-    ctx.cov["rule"] = ("5 phase-matched setups (KTP/BBO/LiNbO3, types 0/1/2, poled and not, collinear and not); per setup: envelope at centre, "
+    ctx.cov["rule"] = ("5 phase-matched setups (KTP/BBO/LiNbO3, types 0/1/2, poled and not, collinear and not) plus 4 edit histories of each that break energy conservation at the centre (signal / idler / pump retuned alone); two-source HOM with the sources scaled independently; per setup: envelope at centre, "
                        "± half span, random and far detunings for 5 bandwidths; spectrum functions at in-support points, at every box "
                        "boundary (= and ± 1 ulp, threshold off and on), at threshold = alpha and ± 1 ulp; normalisation at random "
                        "bandwidth/power/deff; (power, deff) scaled over six decades; distinct = distinct (setup, input bits)")
     ctx.cov["clauses"] = {
         "intensities/rates proportional to power x deff^2": "proved (generated normalisation; raw amplitudes syntactically independent: frame scan) + Rust-vs-Rust 1e-12 over six decades",
-        "efficiencies / normalised spectra / Schmidt / HOM independent of power, deff": "proved on the generated/hand models (SVD and HOM sums as list models) + Rust-vs-Rust",
+        "efficiencies / normalised spectra / Schmidt / HOM independent of power, deff": "proved on the generated/hand models (SVD, HOM and two-source HOM sums as list models; two sources scaled independently) + Rust-vs-Rust",
         "envelope 1 at centre, 1/2 at +- half FWHM span": "proved (exact, and only there) + interval correspondence",
         "jsa_raw = envelope x phasematching": "proved + bitwise on Rust",
         "exact zero off support (box, threshold)": "proved, box proved equal to the property's (strictness included) + exact-zero comparison incl. 1-ulp boundary points",
